@@ -5,7 +5,7 @@ From PG Require Import Common.Strs Units.Model.
 Import ListNotations.
 
 Section Q.
-Variable rpow : Q -> Q -> Q.
+Variable rpow : Q -> Q -> option Q.
 
 (* ---------- incompatible operands ---------- *)
 Definition incompatible (a b : qv) : Prop := compatible a b = false.
